@@ -170,23 +170,26 @@ def zero_guards(prog, rep):
     CP = "embedded_graphics::image::image_raw::ContiguousPixels"
     nx = prog.method1(CP, "next", "core::iter::traits::iterator::Iterator")
     fidx = {f["name"]: i for i, f in enumerate(prog.adts[CP]["variants"][0]["fields"])}
-    org = Origins(nx)
-    selff = lambda n: ("field", ("deref", ("param", 1, "self")), fidx[n])
-    # every `width - 1` is guarded by remaining_y != 0 ; new() guarantees remaining_y == 0 when width == 0 (R09.4 count rule)
-    ok = True
-    n = 0
-    for bi in sorted(org.cfg.live_blocks()):
-        t = nx.body["blocks"][bi]["t"]
-        if t and t["k"] == "assert" and t["msg"]["kind"] == "overflow" and t["msg"].get("op") == "Sub":
-            a = org.operand(t["msg"]["a"], bi, len(nx.body["blocks"][bi]["s"]))
-            if a == selff("width"):
-                n += 1
-                gs = [(fold(d), l) for d, l in dominating_guards(nx, org, bi)]
-                g = any((match(d, ("bin", "Eq", selff("remaining_y"), ("const", 0))) is not None and lit_truth(l) is False) or
-                        (match(d, ("bin", "Ne", selff("remaining_y"), ("const", 0))) is not None and lit_truth(l) is True) or
-                        (match(d, ("bin", "Gt", selff("remaining_y"), ("const", 0))) is not None and lit_truth(l) is True) for d, l in gs)
-                ok = ok and g
-    rep.check(ok and n >= 1, "R08.5", "ContiguousPixels::next", "`self.width - 1` must only be evaluated when remaining_y != 0 (new() leaves remaining_y = 0 for zero-width images, so a zero width never underflows)", at=nx.span, fn=nx.path)
+    # every path that evaluates `width - 1` has established remaining_y != 0 (path summaries: `if`, `match` on a tuple,
+    # guard clauses all give the same facts); new() guarantees remaining_y == 0 when width == 0 (R09.4 count rule)
+    from mirq.paths import Paths, Unsupported, holds, show_fact
+    from mirq.pat import strip_refs
+    me = ("param", 1, "self")
+    sf = lambda n: ("field", me, fidx[n])
+    ok, n, why = True, 0, ""
+    try:
+        for sm in Paths(prog, inline=lambda g: prog.is_new(g)).of(nx):
+            uses = [x for e in sm.effects for t_ in e[1:] if isinstance(t_, tuple) for x in walk(t_)
+                    if x[0] == "bin" and x[1] in ("Sub", "SubWithOverflow") and strip_refs(x[2]) == sf("width")]
+            if not uses:
+                continue
+            n += 1
+            if not holds(sm.facts, ("ne", sf("remaining_y"), ("const", 0))):
+                ok = False
+                why = "; ".join(show_fact(f)[:60] for f in sm.facts[:4])
+    except Unsupported as e:
+        ok, why = False, "cannot summarise: %s" % e
+    rep.check(ok and n >= 1, "R08.5", "ContiguousPixels::next", "`self.width - 1` must only be evaluated when remaining_y != 0 (new() leaves remaining_y = 0 for zero-width images, so a zero width never underflows) %s" % why, at=nx.span, fn=nx.path)
     nw = prog.method1(CP, "new", None)
     # what-if query of the interval domain: with size.width = 0 at entry, the remaining_y of every result is 0
     from mirq.intervals import Analyzer, Contracts, FnRun, fmt
@@ -204,18 +207,17 @@ def zero_guards(prog, rep):
     CR = "embedded_graphics::iterator::contiguous::Cropped"
     nx = prog.method1(CR, "next", "core::iter::traits::iterator::Iterator")
     fidx = {f["name"]: i for i, f in enumerate(prog.adts[CR]["variants"][0]["fields"])}
-    org = Origins(nx)
-    selff = lambda n: ("field", ("deref", ("param", 1, "self")), fidx[n])
-    ok = True
-    n = 0
-    for bi in sorted(org.cfg.live_blocks()):
-        t = nx.body["blocks"][bi]["t"]
-        if t and t["k"] == "call" and t["f"].get("name") in ("next", "nth") and "contiguous" not in t["f"].get("path", ""):
+    sf = lambda n: ("field", me, fidx[n])
+    ok, n, why = True, 0, ""
+    try:
+        for sm in Paths(prog, inline=lambda g: prog.is_new(g)).of(nx):
+            pulls = [e for e in sm.effects if e[0] == "call" and e[1][1].split("::")[-1] in ("next", "nth") and any(strip_refs(x) == sf("iter") for x in walk(e[1][3][0]))]
+            if not pulls:
+                continue
             n += 1
-            gs = [(fold(d), l) for d, l in dominating_guards(nx, org, bi)]
-            h = any(match(d, ("bin", "Ge", selff("y"), ("field", selff("size"), 1))) is not None and lit_truth(l) is False for d, l in gs) or \
-                any(match(d, ("bin", "Lt", selff("y"), ("field", selff("size"), 1))) is not None and lit_truth(l) is True for d, l in gs)
-            w = any(match(d, ("bin", "Eq", ("field", selff("size"), 0), ("const", 0))) is not None and lit_truth(l) is False for d, l in gs) or \
-                any(match(d, ("bin", "Ne", ("field", selff("size"), 0), ("const", 0))) is not None and lit_truth(l) is True for d, l in gs)
-            ok = ok and h and w
-    rep.check(ok and n >= 2, "R08.5", "contiguous::Cropped::next", "every pull from the inner iterator must be behind `y < size.height && size.width != 0` (an empty crop must end at once)", at=nx.span, fn=nx.path)
+            if not (holds(sm.facts, ("lt", sf("y"), ("field", sf("size"), 1))) and holds(sm.facts, ("ne", ("field", sf("size"), 0), ("const", 0)))):
+                ok = False
+                why = "; ".join(show_fact(f)[:60] for f in sm.facts[:4])
+    except Unsupported as e:
+        ok, why = False, "cannot summarise: %s" % e
+    rep.check(ok and n >= 2, "R08.5", "contiguous::Cropped::next", "every pull from the inner iterator must be behind `y < size.height && size.width != 0` (an empty crop must end at once) %s" % why, at=nx.span, fn=nx.path)
